@@ -150,6 +150,63 @@ theorem greedy_fallback_valid (items : List (Rat × Rat)) (cap : Rat) (minimize 
 
 /-! ## T-model: the whole of `solve_knapsack` (front end included) in exact arithmetic -/
 
+/-- scaling that is exact only up to `τ` per number keeps the DP answer optimal up to a capacity
+slack of `(n+1)·τ/scale` -/
+theorem knapsack_near_scaled_optimal (items : List (Rat × Rat)) (cap scale τ slack : Rat) (hs : 0 < scale)
+    (hτ : 0 ≤ τ) (hsl : slack * scale = ((items.length + 1 : Nat) : Rat) * τ)
+    (iw : List Nat) (icap : Nat) (hlen : iw.length = items.length)
+    (hw : ∀ i, i < items.length → -τ ≤ (items.getD i (0, 0)).1 * scale - ((iw.getD i 0 : Nat) : Rat) ∧
+      (items.getD i (0, 0)).1 * scale - ((iw.getD i 0 : Nat) : Rat) ≤ τ)
+    (hc : -τ ≤ cap * scale - (icap : Rat) ∧ cap * scale - (icap : Rat) ≤ τ) :
+    (knapInt ratOps (iw.zip (items.map (·.2))) icap).1.Nodup ∧
+    (∀ i ∈ (knapInt ratOps (iw.zip (items.map (·.2))) icap).1, i < items.length) ∧
+    selW items (knapInt ratOps (iw.zip (items.map (·.2))) icap).1 ≤ cap + slack ∧
+    ∀ sel : List Nat, sel.Nodup → (∀ i ∈ sel, i < items.length) → selW items sel ≤ cap - slack →
+      selV items sel ≤ selV items (knapInt ratOps (iw.zip (items.map (·.2))) icap).1 := by
+  obtain ⟨_, p1, p2, p3, p4, p5⟩ := knapsack_dp_optimal (iw.zip (items.map (·.2))) icap
+  have hl : (iw.zip (items.map (·.2))).length = items.length := by simp [hlen]
+  rw [hl] at p2 p5
+  have hss := scaled_sums_near items scale τ iw hlen hw
+  have mono : ∀ a b : Rat, a * scale ≤ b * scale ↔ a ≤ b := by
+    intro a b
+    constructor
+    · intro h
+      apply Rat.not_lt.1
+      intro hlt
+      have := Rat.mul_lt_mul_of_pos_right hlt hs
+      grind
+    · intro h
+      exact Rat.mul_le_mul_of_nonneg_right h (Rat.le_of_lt hs)
+  have hnd := p1.imp (fun h => Nat.ne_of_lt h)
+  have lenτ : ∀ sel : List Nat, sel.Nodup → (∀ i ∈ sel, i < items.length) →
+      ((sel.length : Nat) : Rat) * τ ≤ ((items.length : Nat) : Rat) * τ := by
+    intro sel h1 h2
+    have := nodup_range_length _ sel h1 h2
+    exact Rat.mul_le_mul_of_nonneg_right (Rat.natCast_le_natCast.2 this) hτ
+  have hn1 : ((items.length + 1 : Nat) : Rat) * τ = ((items.length : Nat) : Rat) * τ + τ := by
+    rw [Rat.natCast_add]; grind
+  obtain ⟨a1, a2, b⟩ := hss _ p2
+  refine ⟨hnd, p2, ?_, fun sel h1 h2 h3 => ?_⟩
+  · rw [← mono]
+    have := lenτ _ hnd p2
+    have p3' : ((selWN (iw.zip (items.map (·.2))) (knapInt ratOps (iw.zip (items.map (·.2))) icap).1 : Nat) : Rat)
+        ≤ (icap : Rat) := Rat.natCast_le_natCast.2 p3
+    have : (cap + slack) * scale = cap * scale + slack * scale := by grind
+    rw [this, hsl, hn1]
+    grind
+  · obtain ⟨a1', a2', b'⟩ := hss sel h2
+    have hfit : selWN (iw.zip (items.map (·.2))) sel ≤ icap := by
+      rw [← Rat.natCast_le_natCast]
+      have h3' := (mono _ _).2 h3
+      have : (cap - slack) * scale = cap * scale - slack * scale := by grind
+      rw [this, hsl, hn1] at h3'
+      have := lenτ sel h1 h2
+      grind
+    have := p5 sel h1 h2 hfit
+    rw [← b, ← b', p4]; exact this
+
+
+
 /-- **knapsack_mirror_feasible.**  Whatever the tolerances, the scale and the branch taken (DP or
 greedy fallback), the mirror of `solve_knapsack` at `Rat` returns distinct in-range indices whose
 weight is within `capacity + weightTol` (within `capacity` on the fallback branch), and the reported
@@ -281,6 +338,101 @@ theorem knapsack_lossless_optimal (c : KConsts Rat) (hc : ExactConsts c) (vals w
         rw [hsnd, hsel] at hmain
         refine ⟨(feasible_zip_congr _ _ _ _ _ hlen' hlen).1 hmain.1, fun sel' hf => ?_⟩
         exact hmain.2 sel' ((feasible_zip_congr _ _ _ _ _ hlen hlen').1 hf)
+    · rw [if_pos (by simpa using hlen)] at hr
+      cases hr
+
+/-- **knapsack_lossless_near_optimal.**  The status rule with the source's tolerance: if `_scaled`
+accepts a number as exact when it is within `scaleTol` of an integer (the code: `1e-9`), then an
+answer the mirror labels OPTIMAL has weight at most `capacity + slack` and is at least as good
+(sign-adjusted) as every selection of weight at most `capacity - slack`, where
+`slack = (n + 1) · scaleTol / scale`.  (`scaleTol = 0` gives `knapsack_lossless_optimal`.) -/
+theorem knapsack_lossless_near_optimal (c : KConsts Rat) (hc : GoodConsts c) (vals wts : List Rat)
+    (vInt wInt : List Bool) (cap : Rat) (minimize : Bool) (hcap : 0 ≤ cap) (hw : ∀ w ∈ wts, 0 ≤ w)
+    (r : KnapRes Rat) (hr : knapMirror ratOps c vals wts vInt wInt cap minimize = .ok r)
+    (hopt : r.status = .OPTIMAL) :
+    r.sel.Nodup ∧ (∀ i ∈ r.sel, i < vals.length) ∧
+    selW (wts.zip vals) r.sel ≤
+      cap + ((vals.length + 1 : Nat) : Rat) * c.scaleTol / (toIntCapacity ratOps c cap wts).2 ∧
+    ∀ sel : List Nat, sel.Nodup → (∀ i ∈ sel, i < vals.length) →
+      selW (wts.zip vals) sel ≤
+        cap - ((vals.length + 1 : Nat) : Rat) * c.scaleTol / (toIntCapacity ratOps c cap wts).2 →
+      selV (wts.zip (vals.map fun v => if minimize then 0 - v else v)) sel ≤
+      selV (wts.zip (vals.map fun v => if minimize then 0 - v else v)) r.sel := by
+  unfold knapMirror at hr
+  by_cases hn : vals.length = 0
+  · rw [if_pos hn] at hr
+    cases hr
+    have hv : vals = [] := List.eq_nil_of_length_eq_zero hn
+    subst hv
+    have hpos := toIntCapacity_scale_pos' c hc cap wts
+    refine ⟨List.nodup_nil, by simp, ?_, fun sel _ hf _ => ?_⟩
+    · show (0 : Rat) ≤ _
+      have : 0 ≤ ((0 + 1 : Nat) : Rat) * c.scaleTol / (toIntCapacity ratOps c cap wts).2 := by
+        rw [Rat.div_def]
+        exact Rat.mul_nonneg (Rat.mul_nonneg (by simp; decide) hc.scaleTolNonneg) (Rat.le_of_lt (Rat.inv_pos.2 hpos))
+      simp only [List.length_nil]
+      grind
+    · have : sel = [] := by
+        cases sel with
+        | nil => rfl
+        | cons i s => have := hf i List.mem_cons_self; simp at this
+      subst this
+      exact Rat.le_refl
+  · rw [if_neg hn] at hr
+    by_cases hlen : wts.length = vals.length
+    · rw [if_neg (by simpa using hlen)] at hr
+      have hlt : ratOps.lt cap ratOps.zero = false := by
+        show decide (cap < 0) = false
+        exact decide_eq_false (by grind)
+      rw [hlt] at hr
+      simp only [Bool.false_eq_true, if_false] at hr
+      generalize hsel : (knapInt ratOps _ (toIntCapacity ratOps c cap wts).1).1 = sel at hr
+      by_cases hchk : ratOps.lt (ratOps.add cap c.weightTol)
+          (sumAt ratOps (wts.zip (wInt ++ List.replicate wts.length false)) sel) = true
+      · rw [if_pos hchk] at hr
+        cases hr
+        cases hopt
+      · rw [if_neg hchk] at hr
+        cases hr
+        simp only at hopt ⊢
+        have hloss : ((scaled ratOps c cap (toIntCapacity ratOps c cap wts).2).2 &&
+            (scaleWeights ratOps c wts (toIntCapacity ratOps c cap wts).2).all (·.2)) = true := by
+          by_cases h : ((scaled ratOps c cap (toIntCapacity ratOps c cap wts).2).2 &&
+            (scaleWeights ratOps c wts (toIntCapacity ratOps c cap wts).2).all (·.2)) = true
+          · exact h
+          · rw [if_neg h] at hopt; cases hopt
+        rw [Bool.and_eq_true] at hloss
+        have hsv : (vals.map fun v => if minimize = true then ratOps.sub ratOps.zero v else v) =
+            (vals.map fun v => if minimize = true then 0 - v else v) := rfl
+        rw [hsv] at hsel
+        have hlen' : wts.length = (vals.map fun v => if minimize = true then 0 - v else v).length := by
+          simpa using hlen
+        have hsnd : (wts.zip (vals.map fun v => if minimize = true then 0 - v else v)).map (·.2) =
+            (vals.map fun v => if minimize = true then 0 - v else v) := by
+          rw [List.map_snd_zip]; omega
+        have hpos := toIntCapacity_scale_pos' c hc cap wts
+        have hzl : (wts.zip (vals.map fun v => if minimize = true then 0 - v else v)).length = vals.length := by
+          simp; omega
+        have hmain := knapsack_near_scaled_optimal (wts.zip (vals.map fun v => if minimize = true then 0 - v else v)) cap
+          (toIntCapacity ratOps c cap wts).2 c.scaleTol
+          (((vals.length + 1 : Nat) : Rat) * c.scaleTol / (toIntCapacity ratOps c cap wts).2)
+          hpos hc.scaleTolNonneg
+          (by rw [hzl]; exact Rat.div_mul_cancel (by grind))
+          ((scaleWeights ratOps c wts (toIntCapacity ratOps c cap wts).2).map (·.1))
+          (toIntCapacity ratOps c cap wts).1
+          (by rw [scaleWeights_length]; simp; omega)
+          (by
+            intro i hi
+            have hi' : i < wts.length := by simp at hi; omega
+            rw [getD_zip_pair _ _ _ hlen']
+            exact scaleWeights_near c hc wts hw _ hloss.2 i hi')
+          (toIntCapacity_near c hc cap hcap wts hloss.1)
+        rw [hsnd, hsel, hzl] at hmain
+        obtain ⟨m1, m2, m3, m4⟩ := hmain
+        refine ⟨m1, m2, ?_, fun sel' h1 h2 h3 => ?_⟩
+        · rw [selW_zip _ _ _ hlen]; rw [selW_zip _ _ _ hlen'] at m3; exact m3
+        · apply m4 sel' h1 h2
+          rw [selW_zip _ _ _ hlen']; rw [selW_zip _ _ _ hlen] at h3; exact h3
     · rw [if_pos (by simpa using hlen)] at hr
       cases hr
 
@@ -440,7 +592,8 @@ example : KnapFeasible [(3, 5), (2, 4)] 4 (greedyFallback ratOps [(3, 5), (2, 4)
   greedy_fallback_valid _ _ _ (by decide +kernel)
 /-- constants satisfying `ExactConsts` (scale cap 2 instead of 1000 to keep the example small) -/
 def exConsts : KConsts Rat := ⟨100000, 2, 0, 0, (1 : Rat) / 2, 1⟩
-example : ExactConsts exConsts := ⟨rfl, rfl, by decide +kernel, by decide +kernel, by decide +kernel⟩
+example : ExactConsts exConsts :=
+  ⟨⟨rfl, by decide +kernel, by decide +kernel, by decide +kernel, by decide +kernel⟩, rfl⟩
 /-- weights 0.5, 1.5, capacity 2.5: scaled by 2 without loss, so the mirror says OPTIMAL and takes both -/
 example : (knapMirror ratOps exConsts [3, 4] [(1 : Rat) / 2, (3 : Rat) / 2] [] [] ((5 : Rat) / 2) false).toOption.map
     (fun r => (r.status, r.sel, r.objective)) = some (.OPTIMAL, [0, 1], 7) := by decide +kernel
